@@ -1222,7 +1222,8 @@ class Process(StateMachine, persistence.Savable, metaclass=ProcessStateMachineMe
                 try:
                     new_state = self._create_state_instance(process_states.ProcessState.KILLED, msg=exception.msg)
                     self.transition_to(new_state)
-                    return True
+                    # (not killed after all if a hook of the transition failed: the process is then EXCEPTED)
+                    return self.killed()
                 finally:
                     self._killing = None
 
@@ -1311,7 +1312,8 @@ class Process(StateMachine, persistence.Savable, metaclass=ProcessStateMachineMe
         msg = MessageBuilder.kill(msg_text)
         new_state = self._create_state_instance(process_states.ProcessState.KILLED, msg=msg)
         self.transition_to(new_state)
-        return True
+        # (not killed after all if a hook of the transition failed: the process is then EXCEPTED)
+        return self.killed()
 
     @property
     def is_killing(self) -> bool:
